@@ -42,6 +42,8 @@ impl Drop for TmpDirGuard {
     fn drop(&mut self) {
         if !self.1 { return; }
         match &self.0 { Some(v) => std::env::set_var("TMPDIR", v), None => std::env::remove_var("TMPDIR") }
+        let tmp0 = std::env::temp_dir();
+        for d in 1..=2 { let _ = std::fs::remove_dir_all(tmp0.join(format!("sdsim-tmpdir-{}-{}", std::process::id(), d))); }
     }
 }
 
@@ -188,7 +190,7 @@ impl NameVolume {
             if *t >= n { return out.fail(Violation::new(prop, "harness", "namesim", "bad thread index".into())); }
             for (_, d) in self.tmp_switch.iter().filter(|(at, _)| *at == i) {
                 // Only the harness thread runs here: every worker is parked on its channel.
-                let dir = if *d == 0 { tmp0.clone() } else { let p = crate::scratch::dir().join(format!("tmpdir-{}", d)); let _ = std::fs::create_dir_all(&p); p };
+                let dir = if *d == 0 { tmp0.clone() } else { let p = tmp0.join(format!("sdsim-tmpdir-{}-{}", std::process::id(), d)); let _ = std::fs::create_dir_all(&p); p };
                 std::env::set_var("TMPDIR", &dir);
                 out.stats.fault("E1-TMPDIR switched between calls", 1);
             }
